@@ -971,6 +971,25 @@ theorem stepS_inv (cfg : Cfg) (s : State) (op : Op) (hL : 1 ≤ cfg.limit) (hP :
     · exact h
   | drop c => exact dropCaller_inv cfg s c h
   | busy ms => exact ⟨h.lim, h.limNow, h.grants, h.calls, h.count, h.rl, h.nr, h.res, h.sleep⟩
+  | turnedAway c err =>
+    simp only [stepS]
+    split
+    · exact h
+    · rename_i hnone
+      have hn : phaseOf s c = none := by
+        cases hp : phaseOf s c with
+        | none => rfl
+        | some v => simp [hp] at hnone
+      cases err with
+      | false =>
+        simp only [Bool.false_eq_true, if_false]
+        exact notReadyCall_inv cfg s c h (by intro b hb; rw [hn] at hb; cases hb) (by rw [hn]; rfl)
+      | true =>
+        simp only [if_true]
+        have h' : SInv cfg (emit s [readyErrEv c]) :=
+          emit_noise_inv cfg s _ [] h rfl (by intro c' r hm; simp [readyErrEv] at hm)
+        have hn' : phaseOf (emit s [readyErrEv c]) c = none := hn
+        exact notReadyCall_inv cfg _ c h' (by intro b hb; rw [hn'] at hb; cases hb) (by rw [hn']; rfl)
 
 theorem init_inv (cfg : Cfg) : SInv cfg (init cfg) := by
   refine ⟨initLim_inv cfg, Nat.le_refl _, rfl, rfl, ?_, ?_, ?_, ?_, ?_⟩
@@ -1217,5 +1236,184 @@ theorem pollSleeping_due (cfg : Cfg) (s : State) (c arr lo hi : Nat) (hdue : hi 
       · cases h
     rw [if_neg h1]; rfl
   · rw [if_pos (Or.inr ⟨rfl, hdue⟩)]
+
+/-! ## Part 5 — several services built from one layer value (`Fleet`) -/
+
+theorem lookup_setInst_same (l : List (Nat × State)) (k : Nat) (s : State) :
+    lookup (setInst l k s) k = some s := by
+  induction l with
+  | nil => simp [setInst, lookup]
+  | cons p tl ih =>
+    obtain ⟨k', s'⟩ := p
+    unfold setInst
+    by_cases hk : k' = k
+    · simp [hk, lookup]
+    · simp only [hk, if_false, lookup]; exact ih
+
+theorem lookup_setInst_other (l : List (Nat × State)) (k j : Nat) (s : State) (hj : j ≠ k) :
+    lookup (setInst l k s) j = lookup l j := by
+  induction l with
+  | nil =>
+    have : ¬ k = j := fun e => hj e.symm
+    simp [setInst, lookup, this]
+  | cons p tl ih =>
+    obtain ⟨k', s'⟩ := p
+    unfold setInst
+    by_cases hk : k' = k
+    · subst hk
+      have : ¬ k' = j := fun e => hj e.symm
+      simp only [if_true, lookup, this, if_false]
+    · simp only [hk, if_false, lookup]; rw [ih]
+
+theorem lookup_mapInsts (g : State → State) (l : List (Nat × State)) (k : Nat) :
+    lookup (mapInsts g l) k = (lookup l k).map g := by
+  induction l with
+  | nil => rfl
+  | cons p tl ih =>
+    obtain ⟨k', s'⟩ := p
+    show lookup ((k', g s') :: mapInsts g tl) k = _
+    simp only [lookup]
+    by_cases hk : k' = k
+    · simp [hk]
+    · simp only [hk, if_false]; exact ih
+
+/-- renumbering the calls of the wrapped service touches no instance -/
+theorem renum_insts (f : Fleet) (evs : List Ev) : (renum f evs).1.insts = f.insts := by
+  induction evs generalizing f with
+  | nil => rfl
+  | cons e es ih =>
+    cases e with
+    | innerCall c k => simp only [renum]; rw [ih]
+    | innerCallX c k tag r => simp only [renum]; rw [ih]
+    | innerDone c k o => simp only [renum]; rw [ih]
+    | innerDrop c k => simp only [renum]; rw [ih]
+    | result c r => simp only [renum]; rw [ih]
+    | probe s => simp only [renum]; rw [ih]
+    | raw s => simp only [renum]; rw [ih]
+
+theorem run_snoc (cfg : Cfg) (ops : List Op) (op : Op) : stepS cfg (run cfg ops) op = run cfg (ops ++ [op]) := by
+  unfold run; rw [List.foldl_append]; rfl
+
+/-- every instance of the fleet is a state of the single-limiter model reached by some operation sequence
+(in the instance's own time) -/
+def FReach (cfg : Cfg) (f : Fleet) : Prop := ∀ k s, lookup f.insts k = some s → ∃ ops, s = run cfg ops
+
+theorem freshInst_run (cfg : Cfg) (f : Fleet) : ∃ ops, freshInst cfg f = run cfg ops := by
+  unfold freshInst
+  split
+  · exact ⟨[.busy (f.busyUntil - f.now)], rfl⟩
+  · exact ⟨[], rfl⟩
+
+theorem instOf_run (cfg : Cfg) (f : Fleet) (k : Nat) (h : FReach cfg f) : ∃ ops, instOf cfg f k = run cfg ops := by
+  unfold instOf
+  cases hk : lookup f.insts k with
+  | none => exact freshInst_run cfg f
+  | some s => exact h k s hk
+
+theorem onInst_insts (cfg : Cfg) (f : Fleet) (k : Nat) (op : Op) :
+    (onInst cfg f k op).1.insts = setInst f.insts k (stepS cfg (instOf cfg f k) op) := by
+  unfold onInst; rw [renum_insts]
+
+theorem onInst_reach (cfg : Cfg) (f : Fleet) (k : Nat) (op : Op) (h : FReach cfg f) :
+    FReach cfg (onInst cfg f k op).1 := by
+  intro j s hj
+  rw [onInst_insts] at hj
+  by_cases hjk : j = k
+  · subst hjk
+    rw [lookup_setInst_same] at hj
+    injection hj with hj
+    obtain ⟨ops, ho⟩ := instOf_run cfg f j h
+    exact ⟨ops ++ [op], by rw [← hj, ho, run_snoc]⟩
+  · rw [lookup_setInst_other _ _ _ _ hjk] at hj
+    exact h j s hj
+
+theorem onInst_other (cfg : Cfg) (f : Fleet) (k j : Nat) (op : Op) (hj : j ≠ k) :
+    lookup (onInst cfg f k op).1.insts j = lookup f.insts j := by
+  rw [onInst_insts, lookup_setInst_other _ _ _ _ hj]
+
+theorem mapInsts_reach (cfg : Cfg) (f f' : Fleet) (op : Op)
+    (hi : f'.insts = mapInsts (fun s => stepS cfg s op) f.insts) (h : FReach cfg f) : FReach cfg f' := by
+  intro k s hk
+  rw [hi, lookup_mapInsts] at hk
+  cases hl : lookup f.insts k with
+  | none => rw [hl] at hk; cases hk
+  | some s0 =>
+    rw [hl] at hk
+    injection hk with hk
+    obtain ⟨ops, ho⟩ := h k s0 hl
+    exact ⟨ops ++ [op], by rw [← hk, ho]; exact run_snoc cfg ops op⟩
+
+/-- one fleet step keeps every instance a reachable state of the single-limiter model -/
+theorem fstep_reach (cfg : Cfg) (f : Fleet) (op : FOp) (h : FReach cfg f) : FReach cfg (fstep cfg f op).1 := by
+  cases op with
+  | adv ms => exact mapInsts_reach cfg f _ (.adv ms) rfl h
+  | busy ms => exact mapInsts_reach cfg f _ (.busy ms) rfl h
+  | ready sc => exact h
+  | arrive k c sc =>
+    simp only [fstep]
+    split
+    · exact h
+    · split
+      · exact onInst_reach cfg _ k _ h
+      · split
+        · exact onInst_reach cfg _ k _ h
+        · exact onInst_reach cfg _ k _ h
+        · exact onInst_reach cfg _ k _ h
+        · exact onInst_reach cfg _ k _ h
+  | poll c rej woke =>
+    simp only [fstep]
+    split
+    · exact onInst_reach cfg f _ _ h
+    · exact h
+  | drop c =>
+    simp only [fstep]
+    split
+    · exact onInst_reach cfg f _ _ h
+    · exact h
+
+theorem initFleet_reach (cfg : Cfg) : FReach cfg (initFleet cfg) := by
+  intro k s hk
+  simp only [initFleet, lookup] at hk
+  split at hk
+  · injection hk with hk; exact ⟨[], hk.symm⟩
+  · cases hk
+
+theorem frun_reach (cfg : Cfg) (ops : List FOp) : FReach cfg (frun cfg ops) := by
+  unfold frun
+  suffices ∀ f, FReach cfg f → FReach cfg (ops.foldl (fun f op => (fstep cfg f op).1) f) from
+    this _ (initFleet_reach cfg)
+  induction ops with
+  | nil => intro f h; exact h
+  | cons o os ih => intro f h; exact ih _ (fstep_reach cfg f o h)
+
+/-- an operation addressed to service `k` leaves the instance of every other service exactly as it is -/
+theorem fstep_other (cfg : Cfg) (f : Fleet) (op : FOp) (k j : Nat) (ht : target f op = some k) (hj : j ≠ k) :
+    lookup (fstep cfg f op).1.insts j = lookup f.insts j := by
+  cases op with
+  | adv ms => cases ht
+  | busy ms => cases ht
+  | ready sc => cases ht
+  | arrive k' c sc =>
+    simp only [target] at ht
+    injection ht with ht
+    subst ht
+    simp only [fstep]
+    split
+    · rfl
+    · split
+      · exact onInst_other cfg _ _ j _ hj
+      · split
+        · exact onInst_other cfg _ _ j _ hj
+        · exact onInst_other cfg _ _ j _ hj
+        · exact onInst_other cfg _ _ j _ hj
+        · exact onInst_other cfg _ _ j _ hj
+  | poll c rej woke =>
+    simp only [target] at ht
+    simp only [fstep, ht]
+    exact onInst_other cfg f k j _ hj
+  | drop c =>
+    simp only [target] at ht
+    simp only [fstep, ht]
+    exact onInst_other cfg f k j _ hj
 
 end TR.RateLimiter
